@@ -155,6 +155,9 @@ def pratt_family(rng, cap):
             if rng.random() < 0.2:
                 g["parts"] = ["e"]
             out.append(g)
+            # the same grammar with the rules declared bottom-up (the analysis must not depend on it)
+            if len(out) % 2 == 0:
+                out.append(dict(g, name=g["name"] + "_rev", rules=list(reversed(g["rules"]))))
             if len(out) >= cap:
                 return out
     return out
